@@ -45,7 +45,8 @@ def run(ck):
         tuned = (i % 2 == 0)
         ctor = dict(rfm_params=xr.default_rfm_params(iters=1, reg=1e-2, bandwidth=3.0), max_leaf_size=L, verbose=False, classification_mode=enc,
                     use_temperature_tuning=tuned, refill_size=15, temp_tuning_space=[0.0, 0.05, 0.4, 3.0])
-        desc = dict(i=i, task=task, enc=enc, K=K, n=n, L=L, tuned=tuned, seed=ck.seed)
+        same_val = (i % 4 == 2)
+        desc = dict(i=i, task=task, enc=enc, K=K, n=n, L=L, tuned=tuned, same_objects_as_validation=same_val, seed=ck.seed)
         xreps = [('tensor', 'float32'), ('array', 'float32'), ('array', 'float64')]
         if task == 'reg':
             yreps = [(c, dt, sh) for c in ('tensor', 'array') for dt in ('float32', 'float64') for sh in ('flat', 'column')]
@@ -69,7 +70,12 @@ def run(ck):
             model = xr.xRFM(**copy.deepcopy(ctor))
             try:
                 with xr.quiet(), xr.recording_rfm() as log:
-                    model.fit(mk(X, xc, xdt), mk(y, yc, ydt, ysh), mk(Xv, xc, xdt), mk(yv, yc, ydt, ysh))
+                    if same_val:
+                        # the caller re-uses the training data as validation data: the very same objects are passed twice
+                        Xo, yo = mk(X, xc, xdt), mk(y, yc, ydt, ysh)
+                        model.fit(Xo, yo, Xo, yo)
+                    else:
+                        model.fit(mk(X, xc, xdt), mk(y, yc, ydt, ysh), mk(Xv, xc, xdt), mk(yv, yc, ydt, ysh))
                     leaf_inputs = [(r.rec_train[0].numpy().tobytes(), r.rec_train[1].numpy().tobytes(), str(r.rec_train[1].dtype), tuple(r.rec_train[1].shape))
                                    for r in log if r.rec_is_leaf]
                     pred = np.asarray(model.predict(mk(Q, xc, xdt)))
